@@ -281,8 +281,18 @@ def _set(name, s):
     return (name, *[str(c) for c in sorted({encode_const(x) for x in s})])
 
 
+_KNOWN: set = set()
+
+
 def lift(p) -> object:
     c = p.__class__
+    if not _KNOWN:
+        _KNOWN.update(v for v in globals().values() if isinstance(v, type) and issubclass(v, Predicate))
+    if c not in _KNOWN:  # an instance of a derived class (a user subclass, a named constant): the nearest class this table knows
+        for b in c.__mro__[1:]:
+            if b in _KNOWN and b is not Predicate:
+                c = b
+                break
     if c is AlwaysTruePredicate:
         return "tt"
     if c is AlwaysFalsePredicate:
